@@ -24,7 +24,7 @@ pub struct C14 {
 }
 
 /// the defining arc set; None when the parameters are inadmissible
-fn gen_model(gen: &str, a: usize, b: usize) -> Option<G> {
+pub fn gen_model(gen: &str, a: usize, b: usize) -> Option<G> {
     let (gen, a, b) = match gen {
         "trivial" => ("empty", 1, 0),
         "claw" => ("biclique", 1, 3),
